@@ -16,6 +16,8 @@ import (
 
 const fixedPrelude = `(define-fun godiv ((a Int) (b Int)) Int (ite (= (>= a 0) (> b 0)) (div (abs a) (abs b)) (- (div (abs a) (abs b)))))
 (define-fun gomod ((a Int) (b Int)) Int (- a (* b (godiv a b))))
+(declare-fun at (Int Int) Int)
+(assert (forall ((o Int) (i Int)) (! (= (at o i) (+ o i)) :pattern ((at o i)))))
 (define-fun itoa ((i Int)) String (ite (>= i 0) (str.from_int i) (str.++ "-" (str.from_int (- i)))))
 `
 
